@@ -161,6 +161,14 @@ class Extractor:
             d = st[v]
             nd = d.with_(ints=d.ints.cmp_refine("!=" if pol else "==", 0))
             return self._set(st, v, nd)
+        if v is not None and self.fields[v] in ("int", "len"):
+            # truth value of an integer-or-None field: false for None and for 0, true for every other integer
+            d = st[v]
+            if pol:
+                nd = d.with_(ints=d.ints.cmp_refine("!=", 0), none=False)
+            else:
+                nd = d.with_(ints=d.ints.cmp_refine("==", 0))
+            return self._set(st, v, nd)
         raise AnalysisError("validate: condition outside the vocabulary: %s" % canon(test))
 
     def _set(self, st, var, dom):
